@@ -57,6 +57,12 @@ def run(rep: Report, tier: str) -> None:
 	rule_fill_list_roles(rep, pm)
 	rule_string_requoted(rep, idx, pm, tm)
 	rule_declaration_merge(rep, idx)
+	rule_capture_list(rep, idx)
+	rule_decorator_decisions(rep, idx, pm)
+	rule_constructor_hoisting(rep, idx, pm)
+	rule_enumerate_index(rep, tm)
+	rule_range_bound_closed(rep, idx, pm, tm, nm)
+	rule_comment_line(rep, tm)
 
 
 # ---- (a) precedence ---------------------------------------------------------------------------------------------------
@@ -816,3 +822,254 @@ def rule_declaration_merge(rep: Report, idx: SourceIndex) -> None:
 				r.skip(o.key, (o.file, o.line), o.message)
 			else:
 				r.ok(o.key, (o.file, o.line))
+
+
+def rule_capture_list(rep: Report, idx: SourceIndex) -> None:
+	"""A nested `def` / `lambda` becomes a C++ lambda whose capture list is `ref_vars()`: the variables referenced below the node that are not its own.
+	A comprehension or a lambda INSIDE the closure declares variables too (the loop variable, the parameters); they exist only inside that inner scope,
+	and capturing them (`auto g = [z, items](int k) { ... for (auto& z : items) ... }`) names an undeclared variable: the program does not compile.
+	The node classes that declare variables inside an expression are read from the node model (scope classes with `decl_vars` that are not function /
+	class definitions); the collector must look at the `decl_vars` of each of them on the way from the reference up to the closure."""
+	from vlib.nodemodel import NodeModel
+	from vlib.norm import helper_closure
+	r = rep.rule('C01/captures-exclude-variables-of-nested-scopes', 'the variable collector behind Closure.ref_vars / Lambda.ref_vars skips references to variables declared by a comprehension or lambda nested below the closure (kind test over every expression-level scope class of the node model, consulting its decl_vars)', floor=1)
+	nm = NodeModel(idx)
+	prim = idx.mod('rogw/tranp/syntax/node/definition/primary.py')
+	iscope = next((c for m in nm.def_mods + [nm.node_mod] + [idx.mod(p_) for p_ in idx.glob('rogw/tranp/syntax/node/*.py')] for c in m.classes.values() if c.name == 'IScope'), None)
+	scopes = []
+	for c in nm.classes:
+		try:
+			mro = idx.mro(c)
+		except AnalysisError:
+			continue
+		if iscope is not None and iscope not in mro:
+			continue
+		if idx.lookup(c, 'decl_vars') is None:
+			continue
+		if any(k.name in ('ClassDef', 'Entrypoint') for k in mro):
+			continue
+		scopes.append(c)
+	if not scopes:
+		r.skip('scope-classes', (prim.relpath, 1), 'no expression-level scope class with decl_vars found in the node model')
+		return
+	users = [f for f in (idx.lookup(nm.by_name[n], 'ref_vars') for n in ('Closure', 'Lambda') if n in nm.by_name) if f is not None]
+	if not users:
+		r.skip('ref_vars', (prim.relpath, 1), 'Closure.ref_vars / Lambda.ref_vars vanished')
+		return
+	# the collector: functions reachable from ref_vars (same class or the PluckVars helper)
+	reach = []
+	for u in users:
+		for g in helper_closure(u):
+			if g not in reach:
+				reach.append(g)
+		for c_ in ast.walk(u.node):
+			if isinstance(c_, ast.Call) and isinstance(c_.func, ast.Attribute) and isinstance(c_.func.value, ast.Name) and c_.func.value.id[:1].isupper():
+				h = u.module.functions.get(f'{c_.func.value.id}.{c_.func.attr}')
+				for g in (helper_closure(h) if h is not None else []):
+					if g not in reach:
+						reach.append(g)
+	tested: set[str] = set()
+	consults = False
+	for g in reach:
+		for n in ast.walk(g.node):
+			if isinstance(n, ast.Call) and isinstance(n.func, ast.Name) and n.func.id == 'isinstance' and len(n.args) == 2:
+				spec = n.args[1]
+				for e in (spec.elts if isinstance(spec, ast.Tuple) else [spec]):
+					k = idx.resolve_class(g.module, e)
+					if k is not None:
+						tested |= {c.name for c in scopes if k in idx.mro(c)}
+			if isinstance(n, ast.Attribute) and n.attr == 'decl_vars' and not (isinstance(n.value, ast.Name) and n.value.id == 'self'):
+				consults = True
+	names = sorted(c.name for c in scopes)
+	missing = sorted(set(names) - tested)
+	where = users[0].where
+	if not consults:
+		r.violate('nested-scope-variables', where, f'the collector of referenced variables ({", ".join(g.qualname for g in reach)}) looks at the declarations of the closure itself only: a variable declared by a scope nested in the closure ({names}) is captured as well — `def g(k): vs = [z + k for z in items]` is rendered `auto g = [z, items](int k) ...`, and `z` does not exist outside the comprehension, so the C++ does not compile', unparse(users[0].node)[-120:])
+	elif missing:
+		r.violate('nested-scope-variables', where, f'the collector skips variables of nested scopes only for some scope classes; not covered: {missing} (their loop variables / parameters are still captured by an enclosing closure)', '')
+	else:
+		r.ok('nested-scope-variables', where, message=f'decl_vars of {names} are consulted')
+
+
+def rule_decorator_decisions(rep: Report, idx: SourceIndex, pm: Py2CppModel) -> None:
+	"""What a decorator means for the emitted C++ (`virtual` for Embed.allow_override, visibility, static) does not depend on where it stands among the
+	decorators of the function: Python applies all of them. A decision in the transpiler that looks at ONE position of `<node>.decorators` (index 0, or
+	`next()` over an unfiltered iteration) honours the decorator only when it is written first; `@property @Embed.allow_override def area(self)` then
+	loses `virtual`, and a call through the base class no longer reaches the override."""
+	from vlib.match import deref, nodes
+	r = rep.rule('C01/decorator-decisions-search-the-whole-list', 'no function of Py2Cpp selects a decorator by position (constant index, or next() over an unfiltered iteration of <node>.decorators): a decorator is searched in the whole list', floor=1)
+	n_sites = 0
+	for name, f in pm.methods.items():
+		reads = [n for n in ast.walk(f.node) if isinstance(n, ast.Attribute) and n.attr == 'decorators']
+		if not reads:
+			continue
+		n_sites += 1
+
+		def unfiltered(e: ast.AST, depth: int = 0) -> bool:
+			"""e iterates the decorator list itself (possibly mapped), without a condition that selects"""
+			e = deref(f.node, e) if isinstance(e, ast.Name) else e
+			if isinstance(e, ast.Attribute) and e.attr == 'decorators':
+				return True
+			if isinstance(e, (ast.GeneratorExp, ast.ListComp)) and len(e.generators) == 1 and not e.generators[0].ifs and depth < 3:
+				return unfiltered(e.generators[0].iter, depth + 1)
+			if isinstance(e, ast.Call) and isinstance(e.func, ast.Name) and e.func.id in ('iter', 'list', 'tuple', 'map') and e.args and depth < 3:
+				return unfiltered(e.args[-1], depth + 1)
+			return False
+		bad = []
+		for n in ast.walk(f.node):
+			if isinstance(n, ast.Subscript) and not isinstance(n.slice, ast.Slice) and isinstance(n.slice, ast.Constant) and isinstance(n.slice.value, int) and unfiltered(n.value):
+				bad.append(n)
+			if isinstance(n, ast.Call) and isinstance(n.func, ast.Name) and n.func.id == 'next' and n.args and unfiltered(n.args[0]):
+				bad.append(n)
+		key = f'{f.qualname}:decorators'
+		if bad:
+			r.violate(key, (PY2CPP, bad[0].lineno), f'{f.qualname} decides on `{unparse(bad[0])[:80]}`: one fixed position of the decorator list. With another decorator written above it (`@property` / `@Embed.pure` before `@Embed.allow_override`) the decorator is not seen: the base method is emitted without `virtual`, the C++ still compiles, and a call through the base class runs the base implementation where CPython runs the override', unparse(bad[0]))
+		else:
+			r.ok(key, f.where)
+	if n_sites == 0:
+		r.skip('decorator-reads', (PY2CPP, 1), 'no function of Py2Cpp reads <node>.decorators')
+
+
+def rule_constructor_hoisting(rep: Report, idx: SourceIndex, pm: Py2CppModel) -> None:
+	"""`self.x = <expr>` at the top level of `__init__` is moved into the member-initialiser list `: x(<expr>)`, which C++ evaluates BEFORE the constructor
+	body. That preserves the Python order only for field assignments that no other statement precedes. Hoisting every field assignment, wherever it
+	stands, runs it ahead of the statements written before it: `if n < 0: n = 0` / `self.x = n` becomes `P(int n) : x(n) { if (n < 0) { n = 0; } }`
+	(P(-5).x: Python 0, C++ -5), and `m = n * 2` / `self.x = m` names `m` before its declaration (does not compile)."""
+	from vlib.match import atoms as atoms_, nodes
+	r = rep.rule('C01/constructor-hoisting-keeps-statement-order', 'Py2Cpp.on_constructor moves a field assignment into the initialiser list only under a condition that depends on the statements before it (a flag cleared by the first other statement, a break, an index test)', floor=1)
+	f = pm.methods.get('on_constructor')
+	if f is None:
+		r.skip('on_constructor', (PY2CPP, 1), 'Py2Cpp.on_constructor vanished')
+		return
+	loops = [lp for lp in nodes(f.node, ast.For) if 'statements' in unparse(lp.iter)]
+	sites = [(lp, c_) for lp in loops for c_ in nodes(lp, ast.Call) if isinstance(c_.func, ast.Attribute) and c_.func.attr == 'append' and 'initializer' in unparse(c_.func.value)]
+	if not sites:
+		r.skip('on_constructor', f.where, 'on_constructor no longer collects initialiser statements with `<list>.append(index)` in a loop over the statements')
+		return
+	for lp, c_ in sites:
+		assigned_in_loop = {t.id for a in nodes(lp, (ast.Assign, ast.AugAssign)) for t in (a.targets if isinstance(a, ast.Assign) else [a.target]) if isinstance(t, ast.Name)}
+		loop_vars = {x.id for x in ast.walk(lp.target) if isinstance(x, ast.Name)}
+		conds = [a for a, _ in atoms_(f.node, c_)]
+		order_aware = any({x.id for x in ast.walk(a) if isinstance(x, ast.Name)} & (assigned_in_loop - loop_vars) for a in conds) or any(isinstance(a, ast.Compare) and any(isinstance(x, ast.Call) and isinstance(x.func, ast.Name) and x.func.id == 'len' for x in ast.walk(a)) for a in conds)
+		stops = any(isinstance(x, ast.Break) for x in ast.walk(lp))
+		r.check(order_aware or stops, 'hoisted-after-other-statements', (PY2CPP, c_.lineno), f'on_constructor hoists every top-level field assignment (`{unparse(c_)}` under {[unparse(a)[:50] for a in conds]}), also one that follows other statements: the initialiser list runs before the constructor body, so `if n < 0: n = 0` / `self.x = n` is emitted `P(int n) : x(n) {{ if (n < 0) {{ n = 0; }} }}` — P(-5).x is 0 under CPython and -5 in C++; with a local computed first (`m = n * 2` / `self.x = m`) the initialiser names an undeclared variable', unparse(c_))
+
+
+def rule_enumerate_index(rep: Report, tm: TemplateModel) -> None:
+	"""`for i, v in enumerate(xs)`: i is the iteration count on EVERY iteration. The statement form declares the index before a range-for and increments
+	it inside the body; an increment placed after the user's statements is skipped by a `continue` (`if v == 2: continue` -> every later index is one
+	short). The comprehension form steps an iterator in the for-header; a header that never increments the index binding evaluates every element with
+	i == 0."""
+	N = tm.nodes
+	r = rep.rule('C01/enumerate-index-advances-on-every-iteration', 'flow/for/enumerate.j2 increments the index where no `continue` of the body can skip it (not after the statements), and comp/comp_for_enumerate.j2 increments the index in its for-header', floor=2)
+
+	def index_incs(tree) -> list:
+		"""outputs `{{ symbols[0] }}++` (or `++{{ symbols[0] }}`, `+= 1`), in document order, as (position, node)"""
+		flat = []
+		def walk(nodes_list):
+			for n in nodes_list:
+				if isinstance(n, N.Output):
+					for i_, p_ in enumerate(n.nodes):
+						flat.append((n, i_, p_))
+				for attr in ('body', 'else_', 'elif_'):
+					sub = getattr(n, attr, None)
+					if isinstance(sub, list):
+						if isinstance(n, N.For) and attr == 'body':
+							flat.append((n, -1, n))
+						walk(sub)
+		walk(tree.body)
+		return flat
+	name = 'flow/for/enumerate'
+	if name not in tm.asts:
+		r.skip(name, None, f'{name}.j2 vanished')
+	else:
+		flat = index_incs(tm.asts[name])
+		loop_at = next((i for i, (n, k, p_) in enumerate(flat) if k == -1 and isinstance(p_, N.For) and 'statements' in tm._src(p_.iter)), None)
+		incs = [i for i, (n, k, p_) in enumerate(flat) if k >= 0 and isinstance(p_, N.Getitem) and tm._src(p_) == 'symbols[0]' and k + 1 < len(n.nodes) and isinstance(n.nodes[k + 1], N.TemplateData) and n.nodes[k + 1].data.lstrip().startswith(('++', ' += 1', '+= 1'))]
+		if loop_at is None or not incs:
+			r.skip(name, (tm.relpath(name), 1), 'no loop over `statements` or no `symbols[0]++` output found')
+		else:
+			r.check(all(i < loop_at for i in incs), name, (tm.relpath(name), 1), 'the index increment is emitted AFTER the statements of the loop body: a `continue` in the body jumps over it, so `for i, v in enumerate(ls): if v == 2: continue; t += i * 10` counts 0, 1, 1 instead of 0, 1, 2 (and after the loop the index is one more than the last index Python leaves)', tm.sources[name].strip()[:120])
+	name = 'comp/comp_for_enumerate'
+	if name not in tm.asts:
+		r.skip(name, None, f'{name}.j2 vanished')
+	else:
+		src = tm.sources[name]
+		import re as _re
+		stepped = _re.search(r'\{\{\s*symbols\[0\]\s*\}\}\s*(\+\+|\+=)|\+\+\s*\{\{\s*symbols\[0\]\s*\}\}', src) is not None
+		r.check(stepped, name, (tm.relpath(name), 1), 'the for-header of the comprehension form steps the iterator and reloads the value but never increments the index binding `symbols[0]`: `[i * v for i, v in enumerate(ls)]` computes every element with i == 0', src.strip()[-140:])
+
+
+def rule_range_bound_closed(rep: Report, idx: SourceIndex, pm: Py2CppModel, tm: TemplateModel, nm: NodeModel) -> None:
+	"""The templates of a range() loop paste the upper bound to the right of `<`: `i < {{ size }}`. In C++ the relational operators bind tighter than
+	`==`, `&`, `^`, `|`, `&&`, `||` and `?:` (CPP_PREC), so a bound written with one of them regroups: `range(n | 1)` -> `i < n | 1` = `(i < n) | 1`,
+	always true. The value handed to the slot must be closed (parenthesised) whenever the argument node is of an operator class that can render such an
+	operator; the classes are derived from the node model (BinaryOperator subclasses and the ternary) minus those whose tokens all bind at least as
+	tight as the shift operators."""
+	from vlib.match import nodes
+	r = rep.rule('C01/range-bound-closed', 'the bound of a range() loop reaches the `<` slot of the template parenthesised whenever its node class can render an operator that binds looser than `<` in C++ (statement form: decided in Py2Cpp.proc_for_range; comprehension form: in comp/comp_for_range.j2)', floor=2)
+	tight = {'Sum', 'Term', 'ShiftBitwise'}  # + - * / % << >> bind tighter than <
+	binop = nm.by_name.get('BinaryOperator')
+	loose = sorted(c.name for c in nm.classes if (binop is not None and binop in idx.mro(c) and c is not binop and c.name not in tight) or c.name == 'TernaryOperator')
+	f = pm.methods.get('proc_for_range')
+	if f is None:
+		r.skip('statement-form', (PY2CPP, 1), 'Py2Cpp.proc_for_range vanished')
+	else:
+		tested: set[str] = set()
+		for n in ast.walk(f.node):
+			if isinstance(n, ast.Call) and isinstance(n.func, ast.Name) and n.func.id == 'isinstance' and len(n.args) == 2:
+				spec = n.args[1]
+				spec = next((a.value for a in ast.walk(f.node) if isinstance(a, ast.Assign) and isinstance(a.targets[0], ast.Name) and isinstance(spec, ast.Name) and a.targets[0].id == spec.id), spec)
+				for e in (spec.elts if isinstance(spec, ast.Tuple) else [spec]):
+					k = idx.resolve_class(f.module, e)
+					if k is not None:
+						tested |= {c.name for c in nm.classes if k in idx.mro(c)}
+		wraps = any(isinstance(n, ast.JoinedStr) and any(isinstance(v, ast.Constant) and '(' in str(v.value) for v in n.values) for n in ast.walk(f.node))
+		missing = sorted(set(loose) - tested)
+		if not wraps or not tested:
+			r.violate('statement-form', f.where, f'proc_for_range hands the bound to flow/for/range.j2 as written: a bound of class {loose} is pasted to the right of `<` and regroups (`range(n | 1)` -> `i < n | 1`, an endless loop; `range(a if c else b)` -> `j < c ? a : b`)', '')
+		elif missing:
+			r.violate('statement-form', f.where, f'proc_for_range parenthesises the bound for some operator classes only; not covered: {missing}', '')
+		else:
+			r.ok('statement-form', f.where, message=f'bound wrapped for {loose}')
+	name = 'comp/comp_for_range'
+	if name not in tm.asts:
+		r.skip('comprehension-form', None, f'{name}.j2 vanished')
+	else:
+		src = tm.sources[name]
+		import re as _re
+		closed = all(m_.group(1).strip().startswith('(') for m_ in _re.finditer(r'<\s*(\(?\s*\{\{\s*args\[[01]\]\s*\}\}\s*\)?)', src)) and _re.search(r'<\s*\(\s*\{\{', src) is not None
+		# a descending range (`range(10, 0, -1)`) continues while the counter is GREATER than the bound: a header that always compares with `<` never
+		# enters the loop. Both forms must look at the sign of the step (a second comparison, or a conditional) when a step is given
+		for tname, key in (('flow/for/range', 'statement-form:descending'), ('comp/comp_for_range', 'comprehension-form:descending')):
+			if tname not in tm.asts:
+				r.skip(key, None, f'{tname}.j2 vanished')
+				continue
+			tsrc = _re.sub(r'\|\s*length\s*[<>=!]+\s*\d+', '', tm.sources[tname])  # `args | length > 2` counts arguments, it is no sign test
+			sign_aware = '>' in _re.sub(r'-?%\}|\{%-?|-?#\}|\{#-?', '', tsrc).replace('->', '') and _re.search(r'\bstep\b[^\n]*[<>]\s*0|[<>]\s*0[^\n]*\bstep\b|args\[2\][^\n]*[<>]', tsrc) is not None
+			r.check(sign_aware, key, (tm.relpath(tname), 1), f'{tname}.j2 compares the counter with the bound by `<` whatever the step is: `for k in range(10, 0, -1)` is emitted `for (auto k = 10; k < 0; k += -1)` and never runs, CPython iterates 10 .. 1', tsrc.strip()[:140])
+		r.check(closed, 'comprehension-form', (tm.relpath(name), 1), 'comp/comp_for_range.j2 pastes the bound after `<` without parentheses (`{{ symbols[0] }} < {{ args[0] }}`): `[i for i in range(n | 1)]` is emitted `for (auto i = 0; i < n | 1; i++)`', src.strip()[-160:])
+
+
+def rule_comment_line(rep: Report, tm: TemplateModel) -> None:
+	"""A Python comment is emitted as a C++ line comment `//<text>`. In C++ a backslash directly before the line break SPLICES the next line onto the
+	comment (translation phase 2, before comments are removed): `# see dir\\` followed by `x = n` loses the assignment. The template must keep the text
+	from ending in a backslash (append something, or use another comment form)."""
+	N = tm.nodes
+	r = rep.rule('C01/line-comment-cannot-splice', 'statement/comment.j2 does not end the emitted `//` comment with the comment text itself unconditionally: a text ending in a backslash is followed by something else (or rendered in another form)', floor=1)
+	name = 'statement/comment'
+	if name not in tm.asts:
+		r.skip(name, None, 'statement/comment.j2 vanished')
+		return
+	tree = tm.asts[name]
+	outs = [p_ for o in tree.find_all(N.Output) for p_ in o.nodes]
+	if not outs or not any(isinstance(p_, N.TemplateData) and '//' in p_.data for p_ in outs):
+		r.skip(name, (tm.relpath(name), 1), 'the comment is no longer emitted as a `//` line comment')
+		return
+	last = [p_ for p_ in outs if not (isinstance(p_, N.TemplateData) and not p_.data.strip())]
+	tail = last[-1]
+	looks = any('endswith' in tm._src(x) or '[-1]' in tm._src(x) for x in tree.find_all((N.CondExpr, N.If, N.Filter, N.Call, N.Getitem, N.Test)))
+	if isinstance(tail, N.Name) and not looks:
+		r.violate(name, (tm.relpath(name), 1), f'the emitted line ends with the comment text `{{{{ {tail.name} }}}}` as written: `# see dir\\\\` becomes `// see dir\\\\`, the backslash-newline splices the following C++ line into the comment, and the statement after the comment silently vanishes (`x = n` after such a comment: the function returns the old x)', tm.sources[name].strip())
+	else:
+		r.ok(name, (tm.relpath(name), 1))
